@@ -76,7 +76,7 @@ def ro_statics_pass(chk, scripts):
         chk.dist('ro_statics_runs', 'ok' if rc == 0 else 'rc%d' % rc)
         if 'X PROTECTED' not in out:
             raise vlib.BuildError('c18_rostatics did not protect the library data: %s' % (out + err)[-300:])
-        if rc not in (0, 65):
+        if rc not in (0, 65) and 'X STATIC-WRITE' not in out:
             raise vlib.BuildError('c18_rostatics failed (rc %d): %s' % (rc, (out + err)[-400:]))
         for l in out.split('\n'):
             m = re.match(r'^X STATIC-WRITE ([0-9a-f]+) pc ([0-9a-f]+)', l)
@@ -275,8 +275,20 @@ def run(chk):
             for l in sc:
                 chk.dist('api_calls', l.split()[0])
         if (rc2 != 0 or 'ThreadSanitizer' in err2) and 'FOREIGN-' not in err2 + out2:
-            # the sequential run itself misbehaves: not a statement about interference
-            raise vlib.BuildError('sequential reference run failed (rc %d): %s' % (rc2, (err2 or out2)[-600:]))
+            # The run of the scripts one after another in ONE process misbehaves.  Reference = every script alone, once, in a
+            # fresh process: if those are fine, one context's work changed what a later context of the process does
+            # (state surviving MIR_finish: hidden process-wide state); otherwise the history itself is not error-free
+            # and nothing can be said about interference.
+            alone = [run_set(exe, [sc], 1, 'seq', alloc) for sc in th]
+            bad_alone = [(t, r[0], (r[2] or r[1])[-400:]) for t, r in enumerate(alone) if r[0] != 0 or 'ThreadSanitizer' in r[2]]
+            if bad_alone:
+                raise vlib.BuildError('reference run of a single script failed (thread %d, rc %d): %s' % bad_alone[0])
+            found.setdefault('interference:sequential', (lines, dict(set=name, rc=rc2, stderr=err2[-1500:], stdout_tail=out2[-300:]),
+                                                         'contexts used one after another in one process interfere: the run fails (rc %d) '
+                                                         'although every script alone in a fresh process succeeds' % rc2))
+            chk.count(lines, nontrivial=len(th) >= 2)
+            chk.dist('sets', name)
+            continue
         reports = parse_tsan(err)
         nrep += len(reports)
         for r in reports:
